@@ -76,7 +76,10 @@ func metricSnapshot(reg *prometheus.Registry, names []string) map[string]float64
 }
 
 func watchedMetrics(cfg *pluginCfg) []string {
-	names := []string{cfg.pluginMetricName()}
+	var names []string
+	if n := cfg.pluginMetricName(); n != "" { // "": the plugin-level counter is switched off
+		names = append(names, n)
+	}
 	for i := range cfg.Masks {
 		if cfg.Masks[i].MetricName != "" {
 			names = append(names, cfg.Masks[i].MetricName)
